@@ -310,3 +310,10 @@ From Kardia Require Import C10.SourceTie.
 Theorem C10_source_tie : C10_source_tie_statement.
 Proof. exact C10_source_tie_proof. Qed.
 Print Assumptions C10_source_tie.
+
+(** The decision-critical functions of the anchored code have exactly the decisions the source tie knows about
+    (go2coq manifests, regenerated from /repo on every check; statement in SourceManifest.v). *)
+From Kardia Require Import C10.SourceManifest.
+Theorem C10_source_manifest : C10_source_manifest_statement.
+Proof. exact C10_source_manifest_proof. Qed.
+Print Assumptions C10_source_manifest.
